@@ -1,22 +1,22 @@
 SPECIFICATION GSpec
 CONSTANTS
-  MaxId = 4
+  MaxId = 3
   NDocs = 1
   NNames = 2
   NStrs = 1
-  MaxData = 2
+  MaxData = 1
   MaxOps = 1
   MaxKids = 4
   NIt = 1
   NRg = 1
-  NLs = 1
+  NLs = 0
   NWk = 0
-  MaxViewOps = 3
-  MaxPost = 1
+  MaxViewOps = 2
+  MaxPost = 0
   BuildKinds = {"elem", "text", "frag"}
-  GModes = {"all", "elem", "allRejB"}
+  GModes = {"all", "allRejB"}
   GListNames = {"a", "*"}
-  GKinds = {"it", "rg", "ls"}
+  GKinds = {"it", "rg"}
   GMut = {"struct", "text"}
   GOkOnly = FALSE
   GFreshMaxId = 3
